@@ -1,14 +1,18 @@
 #!/usr/bin/env python
-"""C12: a peer that resets its connection before the server accepts it makes
-the server announce `disconnect(sock)` for a socket for which no `connect`
-was ever announced (observers see 0 connects, 1 disconnect)."""
+"""
+C12 demo 1: two Server components on the same (default) channel 'server'
+sharing one poller.  A connection of server A whose output is not finished
+in one _write round is stalled by server B's _write handler, which removes
+A's socket from the poller's write list.  A requested close then never
+completes and, even after the peer has closed its end, no disconnect is
+ever reported; server and poller keep the socket for ever.
+"""
 import socket
-import struct
 import sys
-import time
 
-from circuits import Component, handler
-from circuits.core.pollers import EPoll, Poll, Select
+from circuits import Component, Manager
+from circuits.core import pollers
+from circuits.net.events import close, write
 from circuits.net.sockets import TCPServer
 
 
@@ -17,66 +21,94 @@ class Observer(Component):
 
     def init(self):
         self.log = []
+        self.sock = None
 
-    @handler('connect')
-    def _on_connect(self, sock, *args):
-        self.log.append(('connect', id(sock)))
+    def connect(self, sock, *peer):
+        self.log.append('connect')
+        self.sock = sock
 
-    @handler('read')
-    def _on_read(self, sock, data):
-        self.log.append(('read', id(sock)))
+    def read(self, sock, data):
+        self.log.append('read')
 
-    @handler('disconnect')
-    def _on_disconnect(self, sock):
-        self.log.append(('disconnect', id(sock)))
-
-    @handler('error')
-    def _on_error(self, *args):
-        self.log.append(('error', id(args[0]) if args else None, repr(args[-1])))
+    def disconnect(self, sock):
+        self.log.append('disconnect')
 
 
-def run(poller_cls):
-    m = Observer()
-    poller_cls().register(m)
-    server = TCPServer(('127.0.0.1', 0)).register(m)
+def scenario(poller_cls, two_servers):
+    m = Manager()
+    p = poller_cls().register(m)
+    a = TCPServer(('127.0.0.1', 0)).register(m)
+    if two_servers:
+        TCPServer(('127.0.0.1', 0)).register(m)  # second listener, same default channel
+    o = Observer().register(m)
     m._running = True
     for _ in range(5):
         m.tick(0)
 
-    # the peer connects and aborts (SO_LINGER 0 -> RST) while the connection
-    # is still waiting in the listen queue, i.e. before the loop is stepped
-    peer = socket.create_connection((server.host, server.port))
-    peer.setsockopt(socket.SOL_SOCKET, socket.SO_LINGER, struct.pack('ii', 1, 0))
-    peer.close()
-    time.sleep(0.1)
+    peer = socket.create_connection(a._sock.getsockname())
+    for _ in range(5):
+        m.tick(0)
+    sock = o.sock
 
-    for _ in range(20):
-        m.tick(0.01)
+    # the application answers with two pieces and closes the connection
+    m.fire(write(sock, b'one'), 'server')
+    m.fire(write(sock, b'two'), 'server')
+    m.fire(close(sock), 'server')
+    for _ in range(30):
+        m.tick(0)
 
-    per_sock = {}
-    for entry in m.log:
-        per_sock.setdefault(entry[1], []).append(entry[0])
-    bad = False
-    for key, names in per_sock.items():
-        nconn, ndisc = names.count('connect'), names.count('disconnect')
-        print(f'  {poller_cls.__name__}: socket {key:#x}: events {names}')
-        if ndisc and (nconn != 1 or names.index('connect') > names.index('disconnect')):
-            bad = True
-    if not per_sock:
-        print(f'  {poller_cls.__name__}: no events for the aborted connection (fine)')
-    if server._sock is not None:
-        server._sock.close()
-    return bad
+    peer.settimeout(0.3)
+    got = b''
+    try:
+        while True:
+            d = peer.recv(100)
+            if not d:
+                got += b'<EOF>'
+                break
+            got += d
+    except socket.timeout:
+        got += b'<nothing more>'
+    peer.close()  # the peer goes away: at the latest now a disconnect is due
+    for _ in range(100):
+        m.tick(0)
+
+    leftovers = {
+        'server._clients': sock in a._clients,
+        'server._closeq': sock in a._closeq,
+        'server._buffers': sock in a._buffers,
+        'poller._read': sock in p._read,
+        'poller._targets': sock in p._targets,
+        'poller._map': sock in getattr(p, '_map', {}).values(),
+    }
+    ok = o.log.count('connect') == 1 and o.log.count('disconnect') == 1 and not any(leftovers.values())
+    print(
+        '%-6s %s: peer received %r; observer saw %s; retained: %s'
+        % (
+            poller_cls.__name__,
+            'two servers' if two_servers else 'one server ',
+            got,
+            o.log,
+            [k for k, v in leftovers.items() if v] or 'nothing',
+        )
+    )
+    a._sock and a._sock.close()
+    return ok
 
 
 def main():
     bad = False
-    for cls in (Select, Poll, EPoll):
-        bad |= run(cls)
+    for name in ('Select', 'Poll', 'EPoll'):
+        cls = getattr(pollers, name, None)
+        if cls is None or (name == 'EPoll' and not hasattr(__import__('select'), 'epoll')):
+            continue
+        if not scenario(cls, False):
+            bad = True
+        if not scenario(cls, True):
+            bad = True
     if bad:
-        print('VIOLATION: a disconnect was announced for a socket that never had a connect')
+        print('VIOLATION: an accepted connection never got its disconnect and is retained by server and poller')
         return 1
-    print('OK: every disconnect was preceded by exactly one connect')
+    print('ok: one connect, one disconnect, nothing retained')
     return 0
 
 
